@@ -48,6 +48,8 @@ def parse_fn(t, pos):
         d["ip"] = int(t[pos]); d["c"] = fl(t[pos + 1]); pos += 2
     elif kind == "sat":
         d["s"] = fl(t[pos]); d["c"] = fl(t[pos + 1]); pos += 2
+    elif kind == "scale":
+        d["c"] = fl(t[pos]); d["inner"], pos = parse_fn(t, pos + 1)
     elif kind == "at":
         d["t"] = fl(t[pos]); d["v"] = fl(t[pos + 1]); d["inner"], pos = parse_fn(t, pos + 2)
     elif kind in ("nanle", "nange"):
@@ -101,6 +103,13 @@ def feval(d, x):
     if k == "sat":
         s, c = Fraction(d["s"]), Fraction(d["c"])
         return (x - s) / (1 + abs(x - s)) - c, (abs(x) + abs(s)) / (1 + abs(x - s)) + abs(c)
+    if k == "scale":
+        v = feval(d["inner"], x)
+        if v is None:
+            return None
+        c = Fraction(d["c"])
+        # a product in the subnormal range carries an absolute error of 2^-1075 = 2^-53 * 2^-1022
+        return c * v[0], abs(c) * v[1] + Fraction(1, 2 ** 1022)
     if k == "at":
         if x == Fraction(d["t"]):
             v = d["v"]
@@ -147,6 +156,11 @@ def double_zero(d, x):
         for c in reversed(d["p"]):
             r = c + x * r
         return r == 0.0
+    if d["kind"] == "scale" and d["inner"]["kind"] == "poly":
+        r = 0.0
+        for c in reversed(d["inner"]["p"]):
+            r = c + x * r
+        return d["c"] * r == 0.0
     v = feval(d, Fraction(x))
     return v is not None and v[0] == 0
 
@@ -161,6 +175,8 @@ def fn_str(d):
         return "%s %d %s" % (k, d["ip"], hx(d["c"]))
     if k == "sat":
         return "sat %s %s" % (hx(d["s"]), hx(d["c"]))
+    if k == "scale":
+        return "scale %s %s" % (hx(d["c"]), fn_str(d["inner"]))
     if k == "at":
         return "at %s %s %s" % (hx(d["t"]), hx(d["v"]), fn_str(d["inner"]))
     if k in ("nanle", "nange"):
@@ -406,6 +422,62 @@ def generate(tier, seed, ctx):
             rq = "c02.sign %s %s" % (hx(x), hx(y))
             if rq not in ctx["meta"]:
                 R.append(rq); ctx["meta"][rq] = dict(fam="sign2", order="lr")
+    # 6d. value scale: the function families multiplied by 2^k / 10^k over the whole double range (subnormal
+    #     1e-320 ... 1e+300); roots at the exact midpoint, at dyadic points, near an end; linear functions ----------
+    def scaled(inner, a, b, r0, fam):
+        fa_, fb_ = feval(inner, Fraction(a)), feval(inner, Fraction(b))
+        if fa_ is None or fb_ is None or sgn(fa_[0]) * sgn(fb_[0]) >= 0:
+            return
+        big = max(abs(fa_[0]), abs(fb_[0]), abs(feval(inner, Fraction((a + b) / 2))[0]))
+        small = min(abs(fa_[0]), abs(fb_[0]))
+        for _ in range(3):
+            kind = rng.random()
+            c = 2.0 ** rng.randint(-1074, 1000) if kind < 0.5 else 10.0 ** rng.randint(-320, 300)
+            if kind > 0.85:
+                c = rng.choice([1e-200, 1e-160, 1e-154, 1e-310, 1e-320, 5e-324, 1e150, 1e160, 1e200, 1e290])
+            if c == 0.0 or float(big) * c > 1e305 or float(small) * c < 3e-321:
+                continue
+            add(dict(kind="scale", c=c * rng.choice([1.0, -1.0]), inner=inner), a, b, acc_for(r0 if r0 else (b - a), b - a),
+                "scale/%s/%s" % (fam, "tiny" if c < 1e-150 else "huge" if c > 1e150 else "mid"))
+    for _ in range(50 * N):
+        # linear: root at the exact midpoint / at a dyadic point / near an end / anywhere
+        m = rng.choice([-1, 1]) * rng.choice([1.0, 2.0, 0.375, rng.uniform(0.1, 10)])
+        w = rng.choice([0.5, 1.0, 2.0, 8.0, rng.uniform(0.1, 5)])
+        place = rng.choice(["mid", "mid", "dyadic", "end", "any"])
+        if place == "mid":
+            r0 = dyadic(rng, -4, 4, 2); a, b = r0 - w, r0 + w
+        elif place == "dyadic":
+            r0 = dyadic(rng, -4, 4, 2); a, b = r0 - w * 0.25, r0 + w * 0.75
+        elif place == "end":
+            a = dyadic(rng, -4, 4, 2); b = a + w; r0 = a + w * 2.0 ** -rng.randint(6, 30)
+        else:
+            r0 = rng.uniform(-5, 5); a, b = r0 - w * rng.uniform(0.1, 1), r0 + w * rng.uniform(0.1, 1)
+        scaled(dict(kind="poly", p=[-m * r0, m]), a, b, r0, "linear-" + place)
+    for _ in range(40 * N):
+        c0 = rng.random()
+        if c0 < 0.3:      # simple root among others
+            r0 = dyadic(rng, -2, 2, 3) if rng.random() < 0.5 else rng.uniform(-2, 2)
+            others = [r0 + rng.choice([-1, 1]) * rng.uniform(3, 6) for _ in range(rng.randint(0, 2))]
+            inner = dict(kind="poly", p=poly_from_roots([r0] + others, rng.choice([-1.0, 1.0])))
+            w = rng.uniform(0.2, 1.4); a, b = r0 - w, r0 + w * rng.choice([1.0, rng.uniform(0.1, 1)])
+            fam = "poly"
+        elif c0 < 0.5:    # three roots inside
+            rs = sorted(rng.uniform(-1, 1) for _ in range(3))
+            inner = dict(kind="poly", p=poly_from_roots(rs, rng.choice([-1.0, 1.0])))
+            a, b = rs[0] - rng.uniform(0.05, 1), rs[2] + rng.uniform(0.05, 1); r0 = rs[1]; fam = "poly3"
+        elif c0 < 0.7:    # power law over a few decades
+            p = rng.choice([2, 3, 5, 7]); r0 = 10.0 ** rng.uniform(-1, 1)
+            inner = dict(kind="powc", ip=p, c=float(Fraction(r0) ** p))
+            a, b = r0 * 10.0 ** -rng.uniform(0.1, 1.5), r0 * 10.0 ** rng.uniform(0.1, 1.5); fam = "powc"
+        elif c0 < 0.85:
+            s0 = rng.uniform(-2, 2); cc = rng.uniform(-0.9, 0.9)
+            inner = dict(kind="sat", s=s0, c=cc); r0 = s0 + cc / (1 - abs(cc))
+            a, b = r0 - rng.uniform(0.2, 20), r0 + rng.uniform(0.2, 20); fam = "sat"
+        else:
+            r0 = rng.uniform(-3, 3); g = 10.0 ** rng.uniform(-1, 1)
+            inner = dict(kind="rat", p=poly_from_roots([r0]), q=[r0 * r0 + g, -2 * r0, 1.0])
+            a, b = r0 - rng.uniform(0.1, 3), r0 + rng.uniform(0.1, 3); fam = "rat"
+        scaled(inner, a, b, r0, fam)
     # 7a. deterministic: an end that is a zero exactly in double (dyadic roots, exact expanded coefficients) ------
     for a in (-2.0, 0.0, 0.5, 1.25):
         for w in (0.5, 1.0, 4.0):
@@ -502,6 +574,15 @@ def oracle(q, I, ctx):
                                 "returned %r after %d evaluations, zero end %r" % (r, len(I["xs"]), exp)))
             bump(ctx, "zero end exactly 0.0 in double")
         return out
+    # linear functions are solved exactly (findRoot_linear_exact), whatever the scale of their values, as long as
+    # the end values are normal doubles (a function quantised in the subnormal range is not linear any more)
+    lin = d if d["kind"] == "poly" else (d["inner"] if d["kind"] == "scale" and d["inner"]["kind"] == "poly" else None)
+    if lin is not None and len(lin["p"]) == 2 and lin["p"][1] != 0 and max(abs(flo[0]), abs(fhi[0])) >= Fraction(1, 2 ** 960):
+        root = -Fraction(lin["p"][0]) / Fraction(lin["p"][1])
+        bump(ctx, "linear exactness clause evaluated")
+        if abs(Fraction(r) - root) > 64 * U * max(abs(Fraction(lo)), abs(Fraction(hi))):
+            out.append(fail("prop", "linear function not solved exactly (to rounding)",
+                            "r=%r root=%r |r-root|=%.3e after %d evaluations" % (r, float(root), float(abs(Fraction(r) - root)), len(I["xs"]))))
     W = Fraction(hi) - Fraction(lo)
     delta = Fraction(acc)
     # width/acc <= 2^200 (the whole quantifier): ridder_invariant + findRoot_maxiter_bound exclude the
@@ -603,7 +684,7 @@ def compare(rq, impl, model, ctx):
 
         div = None
         for i in range(min(len(xs), n)):
-            if abs(Fraction(xs[i]) - mxs[i]) > tol(i):
+            if math.isnan(xs[i]) or math.isinf(xs[i]) or abs(Fraction(xs[i]) - mxs[i]) > tol(i):
                 div = (i, "abscissa %d: impl %r model %r (tolerance %.3g)" % (i, xs[i], float(mxs[i]), float(tol(i)))); break
         if div is None and len(xs) != n:
             i = min(len(xs), n)
@@ -619,7 +700,7 @@ def compare(rq, impl, model, ctx):
                 out.append(fail("corr", "trace of abscissae differs from the model (iterate / re-bracketing / termination)",
                                 div[1] + " margin=%.3g" % float(cummargin(div[0]))))
         else:
-            if abs(Fraction(I["r"]) - mr) > tol(n - 1) + 32 * U * abs(mr):
+            if math.isnan(I["r"]) or math.isinf(I["r"]) or abs(Fraction(I["r"]) - mr) > tol(n - 1) + 32 * U * abs(mr):
                 out.append(fail("corr", "returned value differs from the model on the same trace", "impl %r model %r" % (I["r"], float(mr))))
     if tag(model) in ("ok", "err") or tag(impl) in ("ok", "err"):
         w = abs(q["xr"] - q["xl"])
@@ -655,6 +736,7 @@ def finalize(ctx, exe):
             if A != B:
                 out.append(dict(fail("prop", "the order of the bracket ends changes the outcome", "one order exits, the other returns"), req=rq))
             continue
-        if A["r"] != B["r"] or A["xs"] != B["xs"]:
+        same = lambda u, v: u == v or (math.isnan(u) and math.isnan(v))
+        if not same(A["r"], B["r"]) or len(A["xs"]) != len(B["xs"]) or not all(same(u, v) for u, v in zip(A["xs"], B["xs"])):
             out.append(dict(fail("prop", "the order of the bracket ends changes the result", "%r vs %r, %d vs %d evaluations" % (A["r"], B["r"], len(A["xs"]), len(B["xs"]))), req=rq))
     return out
